@@ -8,6 +8,7 @@ import random
 import shutil
 import signal
 import subprocess
+import tempfile
 import sys
 import time
 
@@ -120,6 +121,16 @@ def check_c07(seed, tier):
                                  "what": f"producing the index cache ({producer}) failed although the product opens without a cache: {type(e).__name__}: {e}"[:300],
                                  "key": common.failure_site(e)})
                     continue
+                if producer == "cli" and location == "adjacent" and len([d_ for d_ in distinct if "symbolic" in str(d_)]) <= len([d_ for d_ in distinct if d_[1:2] == ("cli",)]) // 2:
+                    # a "symlink farm": the index next to the image is a symbolic link to a file stored elsewhere — still a usable cache
+                    local_dir = path[len("file://"):] if path.startswith("file://") else path
+                    vault = tempfile.mkdtemp(prefix="vault-", dir=common.SCRATCH)
+                    for im in prod.images:
+                        src_ = os.path.join(local_dir, im.name + ".index")
+                        if os.path.isfile(src_) and not os.path.islink(src_):
+                            shutil.move(src_, os.path.join(vault, im.name + ".index"))
+                            os.symlink(os.path.join(vault, im.name + ".index"), src_)
+                    location = "adjacent (symbolic links)"
                 evals += 1
                 distinct.add((level, producer, fs, location, rw, rr))
                 case = {"cfg": cfg, "producer": producer, "fs": fs, "location": location, "rpc_write": rw, "rpc_read": rr}
@@ -205,7 +216,6 @@ def check_c07(seed, tier):
             clean()
     # two DIFFERENT product directories whose paths look alike (same text in Unicode normalisation forms NFC / NFD) holding
     # images of the same name: a cache made for one must never serve the other
-    import tempfile
     import unicodedata
     for trial in range(0 if common.FS_ASCII else (1 if tier == "quick" else 6)):
         level = rng.choice(["1.1", "1.5"])
